@@ -83,14 +83,67 @@ void _ZSt17__throw_bad_allocv(void) { lib_throw("bad_alloc"); }
 void _ZSt28__throw_bad_array_new_lengthv(void) { lib_throw("bad_array_new_length"); }
 void __clang_call_terminate(char* e) { VASSERT(0, "C12: std::terminate reached (exception escaped a noexcept region)"); }
 
-/* ---- heap ---- */
-char* _Znwm(uint64_t n) { char* p = malloc(n); VASSUME(p != 0); return p; }
-void _ZdlPv(char* p) { free(p); }
+/* ---- heap: the two vectors of the manager get TYPED storage (arrays of identifiers / of driver
+ * pointers) from static pools: a pointer stored into a malloc'ed byte array comes back as an
+ * opaque value, the driver loop then has no concrete bounds and symex unrolls 9 x 9 x 9 ---- */
+struct ident_; struct driver;
+#define POOLN 5
+#define POOLCAP 8
+struct enum_result_ { uint32_t status; uint8_t driver_id, device_id; uint32_t kind; char name[256]; };
+static struct enum_result_ pool_er[POOLN][POOLCAP];
+static struct driver* pool_dp[POOLN][POOLCAP];
+static int pool_er_n, pool_dp_n;
+static struct manager the_manager; /* the DeviceManagerV0 object itself, typed */
+static int manager_given;
+#ifdef __CPROVER__
+#define SAME_OBJECT(p, q) __CPROVER_same_object((p), (q))
+#else
+#define SAME_OBJECT(p, q) ((char*)(p) >= (char*)(q) && (char*)(p) < (char*)(q) + sizeof(q))
+#endif
+char*
+_Znwm(uint64_t n)
+{
+    if (n == sizeof(struct manager) && !manager_given) { manager_given = 1; return (char*)&the_manager; }
+    if (n && n % 268 == 0 && n / 268 <= POOLCAP && pool_er_n < POOLN) return (char*)pool_er[pool_er_n++];
+    if (n && n % 8 == 0 && n / 8 <= POOLCAP && pool_dp_n < POOLN) return (char*)pool_dp[pool_dp_n++];
+    char* p = malloc(n);
+    VASSUME(p != 0);
+    return p;
+}
+/* relocation of vector elements (memmove in the unit): element-wise and TYPED inside the pools */
+void*
+memmove(void* dst, const void* src, size_t n)
+{
+    if (n == 0) return dst;
+    if (SAME_OBJECT(dst, pool_dp) && SAME_OBJECT(src, pool_dp)) {
+        VASSERT(n % 8 == 0 && n / 8 <= POOLCAP, "harness bound: pointer-vector relocation");
+        for (size_t i = 0; i < POOLCAP; ++i)
+            if (i < n / 8) ((struct driver**)dst)[i] = ((struct driver* const*)src)[i];
+        return dst;
+    }
+    if (SAME_OBJECT(dst, pool_er) && SAME_OBJECT(src, pool_er)) {
+        VASSERT(n % 268 == 0 && n / 268 <= POOLCAP, "harness bound: identifier-vector relocation");
+        for (size_t i = 0; i < POOLCAP; ++i)
+            if (i < n / 268) ((struct enum_result_*)dst)[i] = ((const struct enum_result_*)src)[i];
+        return dst;
+    }
+    VASSERT(n <= 300, "harness bound: memmove larger than an identifier");
+    for (size_t i = 0; i < 300; ++i)
+        if (i < n) ((char*)dst)[i] = ((const char*)src)[i];
+    return dst;
+}
+void
+_ZdlPv(char* p)
+{
+    if (p == 0 || SAME_OBJECT(p, pool_er) || SAME_OBJECT(p, pool_dp) || p == (char*)&the_manager) return;
+    free(p);
+}
 
 /* ---- logger and helpers of the C side ---- */
 void aq_logger(uint32_t is_error, char* file, uint32_t line, char* function, char* fmt, ...) {}
 char* device_kind_as_string(uint32_t k) { return (char*)"kind"; }
 uint64_t device_identifier_as_debug_string(char* buf, uint64_t n, char* id) { if (n) buf[0] = 0; return 0; }
+int snprintf(char* buf, size_t n, const char* fmt, ...) { if (n) buf[0] = 0; return 0; } /* message text of the error path: not the subject */
 
 /* ---- std::locale ---- */
 void _ZNSt6localeC1Ev(char* self) {}
@@ -118,8 +171,8 @@ static int compile_calls, compile_throws, match_calls, regex_dtor_calls;
 static char seen_pattern[SPMAX + 1];
 static uint64_t seen_pattern_len;
 static uint32_t seen_flags;
+static struct enum_result ids[NID > 5 ? NID : 5]; /* MODE 4 enumerates at most 5 devices */
 static uint8_t oracle[NID];      /* arbitrary answer of the engine per enumerated device */
-static struct enum_result ids[NID > 12 ? NID : 12];
 static int match_order_ok = 1, last_matched = -1;
 void
 _ZNSt7__cxx1111basic_regexIcNS_12regex_traitsIcEEE10_M_compileEPKcS5_NSt15regex_constants18syntax_option_typeE(char* self, char* first, char* last, uint32_t flags)
@@ -183,17 +236,26 @@ driver_load(char* path, char* reporter)
 }
 
 /* comparison of identifiers without memcmp's 264-step loop: ids, kind, the name bytes the harness
- * makes symbolic and the last byte */
-static int
-ident_eq(const struct ident* a, const struct ident* b)
-{
-    if (a->driver_id != b->driver_id || a->device_id != b->device_id || a->kind != b->kind || a->name[255] != b->name[255] || a->name[100] != b->name[100]) return 0;
-    for (int c = 0; c <= NAMEMAX; ++c)
-        if (a->name[c] != b->name[c]) return 0;
-    return 1;
-}
+ * makes symbolic, one byte in the middle and the last byte.  (A macro over the objects themselves, member access by `.`:
+ * the same comparison through pointers to the objects came back FAILED from CBMC 6.11 while
+ * every single field comparison at the call site was proved equal, and the native replay agreed
+ * with the latter.) */
+#if NAMEMAX != 2
+#error "ident_eq compares name[0..2]: adapt it to NAMEMAX"
+#endif
+#define ident_eq(a, b) /* a, b: struct ident lvalues */                                                                   \
+    ((a).driver_id == (b).driver_id && (a).device_id == (b).device_id && (a).kind == (b).kind && (a).name[0] == (b).name[0] && \
+     (a).name[1] == (b).name[1] && (a).name[2] == (b).name[2] && (a).name[100] == (b).name[100] && (a).name[255] == (b).name[255])
 /* the unit's 264-byte identifier copies (memcpy in the source), as typed struct assignments */
-void verif_copy_ident(char* dst, char* src) { *(struct ident*)dst = *(const struct ident*)src; }
+void
+verif_copy_ident(char* dst, char* src)
+{
+    /* case split over the enumerated devices: every alternative copies from a concrete object
+     * (a 264-byte read at a symbolic offset of the identifier array costs millions of clauses) */
+    for (int k = 0; k < (NID > 5 ? NID : 5); ++k)
+        if (src == (char*)&ids[k].id) { *(struct ident*)dst = ids[k].id; return; }
+    VASSERT(0, "harness bound: an identifier is copied from something that is not an element of the enumeration");
+}
 static struct manager mgr;
 static struct dm_handle handle;
 static struct driver* drv_table[4];
@@ -236,16 +298,25 @@ main(void)
     uint64_t plen = ND(uint8_t);
     VASSUME(plen <= PMAX);
     for (int i = 0; i < PMAX; ++i) pat[i] = (char)ND(uint8_t);
-    uint8_t null_name = ND(uint8_t) & 1, null_self = ND(uint8_t) & 1, null_impl = ND(uint8_t) & 1;
-    if (null_impl) handle.impl = 0;
+    uint8_t null_name = ND(uint8_t) & 1, variant = ND(uint8_t);
+    VASSUME(variant < 3);
     /* the buffer handed in has exactly plen bytes: reading past it leaves the object */
     char* name = null_name ? 0 : (pat + (PMAX - plen));
-    uint32_t rc = device_manager_select(null_self ? 0 : (char*)&handle, kind, name, plen, (char*)&out);
     const char* pb = pat + (PMAX - plen);
+    if (variant) {
+        /* NULL handles: concretely guarded calls (see MODE 2) */
+        uint32_t rcn;
+        if (variant == 1) rcn = device_manager_select((char*)0, kind, name, plen, (char*)&out);
+        else { handle.impl = 0; rcn = device_manager_select((char*)&handle, kind, name, plen, (char*)&out); }
+        VASSERT(verif_exn == 0, "C12: an exception escapes device_manager_select (NULL handle)");
+        VASSERT(rcn != 0 && ident_eq(out, out0), "C12: NULL handle accepted / output written");
+        return 0;
+    }
+    uint32_t rc = device_manager_select((char*)&handle, kind, name, plen, (char*)&out);
     VASSERT(verif_exn == 0, "C12: an exception escapes device_manager_select");
-    if (null_self || null_impl || (null_name && plen)) {
-        VASSERT(rc != 0, "C12: NULL handle / NULL name with a length accepted");
-        VASSERT(ident_eq(&out, &out0), "C12: output written on an error path");
+    if (null_name && plen) {
+        VASSERT(rc != 0, "C12: NULL name with a length accepted");
+        VASSERT(ident_eq(out, out0), "C12: output written on an error path");
         return 0;
     }
     /* the pattern std::string: the plen bytes; if the last one is NUL, cut at the first NUL */
@@ -264,7 +335,7 @@ main(void)
     const char* pb = kind == 1 ? ".*random.*" : "trash"; /* the documented defaults: DeviceKind_Camera == 1, DeviceKind_Storage == 2 */
     uint64_t clen = which ? 0 : (kind == 1 ? 10 : 5);
     if (!which && kind != 1 && kind != 2) {
-        VASSERT(rc != 0 && compile_calls == 0 && ident_eq(&out, &out0), "C12: select_default for a kind without default did not fail cleanly");
+        VASSERT(rc != 0 && compile_calls == 0 && ident_eq(out, out0), "C12: select_default for a kind without default did not fail cleanly");
         return 0;
     }
 #endif
@@ -276,7 +347,7 @@ main(void)
         if (i < clen) VASSERT(seen_pattern[i] == pb[i], "C12: the text compiled is not the caller's pattern (bytes)");
     if (compile_throws) {
         VASSERT(rc != 0, "C12: malformed pattern did not give an error status");
-        VASSERT(ident_eq(&out, &out0), "C12: output written although the pattern is malformed");
+        VASSERT(ident_eq(out, out0), "C12: output written although the pattern is malformed");
         VASSERT(match_calls == 0, "matching attempted with a pattern that failed to compile");
         return 0;
     }
@@ -284,12 +355,26 @@ main(void)
     int want = -1;
     for (int i = NID; i-- > 0;)
         if (i < n && ids[i].id.kind == kind && (any || oracle[i])) want = i;
+#if MODE == 1
+    /* a pattern that consists of NUL padding only: the property does not say whether that is the
+     * empty pattern (any device of the kind: what the unit does) or a pattern text of length 0
+     * given to the engine; both outcomes are accepted */
+    if (plen > 0 && !null_name && pb[plen - 1] == 0 && first_nul == 0) {
+        int want2 = -1;
+        for (int i = NID; i-- > 0;)
+            if (i < n && ids[i].id.kind == kind && oracle[i]) want2 = i;
+        int ok_any = want < 0 ? (rc != 0 && ident_eq(out, out0)) : (rc == 0 && ident_eq(out, ids[want].id));
+        int ok_txt = want2 < 0 ? (rc != 0 && ident_eq(out, out0)) : (rc == 0 && ident_eq(out, ids[want2].id));
+        VASSERT(ok_any || ok_txt, "C12: NUL-only pattern: the outcome is neither 'any device of the kind' nor 'first device whose name matches the empty text'");
+        return 0;
+    }
+#endif
     if (want < 0) {
         VASSERT(rc != 0, "C12: a device was selected although none of the kind matches");
-        VASSERT(ident_eq(&out, &out0), "C12: output written although nothing matches");
+        VASSERT(ident_eq(out, out0), "C12: output written although nothing matches");
     } else {
         VASSERT(rc == 0, "C12: no device selected although one of the kind matches");
-        VASSERT(ident_eq(&out, &ids[want].id), "C12: the selected device is not the FIRST enumerated one of the kind whose name matches");
+        VASSERT(ident_eq(out, ids[want].id), "C12: the selected device is not the FIRST enumerated one of the kind whose name matches");
     }
     VASSERT(match_order_ok, "C12: candidates are not tried in enumeration order");
     COVER(want == 1 && n == 3 && !any);
@@ -308,31 +393,54 @@ main(void)
     for (int i = 0; i < 4; ++i) drv_table[i] = ND(uint8_t) & 1 ? &drv[i] : 0;
     mgr.drivers.beg = (char*)drv_table;
     mgr.drivers.end = mgr.drivers.cap = (char*)(drv_table + nd);
-    uint8_t null_self = ND(uint8_t) & 1, null_impl = ND(uint8_t) & 1;
-    if (null_impl) handle.impl = 0;
-    char* self = null_self ? 0 : (char*)&handle;
+    /* NULL handles: separate, concretely guarded calls (with a symbolic handle the state word read
+     * through it is symbolic too and symex wanders into DeviceManagerV0::init) */
+    uint8_t variant = ND(uint8_t);
+    VASSUME(variant < 3);
+    if (variant) {
+        struct ident o, o0;
+        memset(&o, 0x5a, sizeof o);
+        o0 = o;
+        uint32_t ix = ND(uint8_t) & 3;
+#define NULL_HANDLE_CALLS(hs)                                                                                                                    \
+    VASSERT(device_manager_count(hs) == 0 && verif_exn == 0, "C12: count on a NULL handle");                                                     \
+    VASSERT(device_manager_get((char*)&o, hs, ix) != 0 && verif_exn == 0 && ident_eq(o, o0), "C12: get on a NULL handle did not fail cleanly");  \
+    VASSERT(device_manager_get_driver(hs, (char*)&ids[0].id) == 0 && verif_exn == 0, "C12: get_driver on a NULL handle did not fail cleanly");
+        if (variant == 1) { NULL_HANDLE_CALLS((char*)0) }
+        else { handle.impl = 0; NULL_HANDLE_CALLS((char*)&handle) }
+        return 0;
+    }
+    const uint8_t null_self = 0, null_impl = 0;
+    char* self = (char*)&handle;
     /* count */
-    uint32_t cnt = device_manager_count(self);
-    VASSERT(verif_exn == 0, "C12: an exception escapes device_manager_count");
-    if (!null_self && !null_impl) VASSERT(cnt == (uint32_t)n, "C12: count differs from the number of enumerated devices");
-    /* get */
-    uint32_t index = ND(uint32_t);
+    /* get: the index is one of a set of representative values, each passed as a CONSTANT (a load
+     * at a symbolic offset of the identifier array costs gigabytes of clauses; the bounds check
+     * of the unit is a 64-bit comparison of the index with the element count) */
+    static const uint32_t REP[] = { 0, 1, 2, 3, 4, 5, 15, 16, 255, 256, 65535, 65536, 0x7fffffffu, 0x80000000u, 0xfffffffeu, 0xffffffffu };
+    uint8_t sel = ND(uint8_t);
+    VASSUME(sel < sizeof REP / sizeof REP[0]);
+    uint32_t index = 0, rc = 77;
     struct ident out, out0;
     memset(&out, 0x5a, sizeof out);
     out0 = out;
-    uint32_t rc = device_manager_get((char*)&out, self, index);
+#define GET_CASE(k) if (sel == (k)) { index = REP[k]; rc = device_manager_get((char*)&out, self, REP[k]); }
+    GET_CASE(0) GET_CASE(1) GET_CASE(2) GET_CASE(3) GET_CASE(4) GET_CASE(5) GET_CASE(6) GET_CASE(7)
+    GET_CASE(8) GET_CASE(9) GET_CASE(10) GET_CASE(11) GET_CASE(12) GET_CASE(13) GET_CASE(14) GET_CASE(15)
     VASSERT(verif_exn == 0, "C12: an exception escapes device_manager_get");
     if (null_self || null_impl || index >= (uint32_t)n || ids[index % NID].status != 0) {
         VASSERT(rc != 0, "C12: out-of-range index / NULL handle / failed enumeration entry did not give an error status");
-        VASSERT(ident_eq(&out, &out0), "C12: output written on an error path of device_manager_get");
+        VASSERT(ident_eq(out, out0), "C12: output written on an error path of device_manager_get");
     } else {
-        VASSERT(rc == 0 && ident_eq(&out, &ids[index].id), "C12: device_manager_get(i) is not the i-th enumerated identifier");
+        VASSERT(rc == 0 && ident_eq(out, ids[index].id), "C12: device_manager_get(i) is not the i-th enumerated identifier");
     }
     /* get_driver */
-    struct ident q;
-    q.driver_id = ND(uint8_t);
-    uint8_t null_id = ND(uint8_t) & 1;
-    char* d = device_manager_get_driver(self, null_id ? 0 : (char*)&q);
+    static struct ident q;
+    static const uint8_t DREP[] = { 0, 1, 2, 3, 4, 5, 127, 128, 255 };
+    uint8_t dsel = ND(uint8_t), null_id = ND(uint8_t) & 1;
+    VASSUME(dsel < sizeof DREP);
+    char* d = (char*)&q; /* sentinel: overwritten below */
+#define DRV_CASE(k) if (dsel == (k)) { q.driver_id = DREP[k]; d = device_manager_get_driver(self, null_id ? 0 : (char*)&q); }
+    DRV_CASE(0) DRV_CASE(1) DRV_CASE(2) DRV_CASE(3) DRV_CASE(4) DRV_CASE(5) DRV_CASE(6) DRV_CASE(7) DRV_CASE(8)
     VASSERT(verif_exn == 0, "C12: an exception escapes device_manager_get_driver");
     if (null_self || null_impl || null_id || q.driver_id >= nd) VASSERT(d == 0, "C12: driver returned for a NULL handle/identifier or an out-of-range driver id");
     else VASSERT(d == (char*)drv_table[q.driver_id], "C12: wrong driver for the identifier's driver id");
@@ -342,6 +450,17 @@ main(void)
     WITNESS_END();
 #elif MODE == 4
     int total = 0;
+#ifdef PRESENT
+    /* which libraries are present and how many devices each announces is fixed per harness
+     * instance (the vectors then grow through concrete capacities); which describe call fails
+     * stays symbolic */
+    static const uint8_t ndevs[NDRV] = NDEVS;
+    for (int k = 0; k < NDRV; ++k) {
+        drv_present[k] = (PRESENT >> k) & 1;
+        drv_ndev[k] = ndevs[k];
+        if (drv_present[k]) total += drv_ndev[k];
+    }
+#else
     for (int k = 0; k < NDRV; ++k) {
         drv_present[k] = ND(uint8_t) & 1;
         drv_ndev[k] = ND(uint8_t);
@@ -349,6 +468,7 @@ main(void)
         if (drv_present[k]) total += drv_ndev[k];
     }
     VASSUME(total <= 5);
+#endif
     fail_describe_drv = ND(int8_t); fail_describe_dev = ND(int8_t);
     handle.impl = 0;
     uint32_t rc = device_manager_init((char*)&handle, 0);
@@ -379,9 +499,13 @@ main(void)
     }
     VASSERT(device_manager_destroy((char*)&handle) == 0 && verif_exn == 0 && handle.impl == 0, "C12: destroy failed");
     for (int k = 0; k < NDRV; ++k) VASSERT(drv_shutdowns[k] == (drv_present[k] ? 1 : 0), "C12: a present driver is not shut down exactly once / an absent one is touched");
+#ifndef PRESENT
     COVER(total == 5 && !drv_present[0] && drv_present[5]);
     COVER(total == 0);
     COVER(fail_describe_drv == 1 && fail_describe_dev == 0 && drv_present[1] && drv_ndev[1] == 2);
+#else
+    COVER(total == 0 || (fail_describe_drv >= 0 && fail_describe_drv < NDRV && drv_present[fail_describe_drv] && fail_describe_dev >= 0 && fail_describe_dev < drv_ndev[fail_describe_drv]));
+#endif
     WITNESS_END();
 #endif
     return 0;
